@@ -25,7 +25,7 @@ def main():
     variants = sorted(f[:-5] for f in os.listdir(bdir) if f.endswith(".diff"))
     if names:
         variants = [v for v in variants if v in names]
-    env = dict(os.environ, VERIF_REPO=WT, VERIF_CACHE="/tmp/vcache_benign", VERIF_EVIDENCE_DIR="/tmp/benign_evidence")
+    env = dict(os.environ, VERIF_REPO=WT, VERIF_CACHE=os.environ.get("BENIGN_CACHE", "/tmp/vcache_benign"), VERIF_EVIDENCE_DIR=os.environ.get("BENIGN_EVIDENCE", "/tmp/benign_evidence"))
     bad = 0
     for v in variants:
         r = sh("git", "-C", WT, "apply", os.path.join(bdir, v + ".diff"))
